@@ -173,3 +173,88 @@ Theorem seq_lengths_correct b0 rest i : noninc b0 rest -> i < b0 ->
 Proof. intros H Hi. rewrite compute_seq_lengths_asc, nth_rev_asc by assumption. reflexivity. Qed.
 Theorem seq_lengths_length b0 rest : noninc b0 rest -> length (compute_seq_lengths (b0 :: rest)) = b0.
 Proof. intros H. rewrite compute_seq_lengths_asc, rev_length. now apply asc_length. Qed.
+
+(* ---------- reverse direction: growing batch, rows of h_0 entering as their sequences start ---------- *)
+Section Reverse.
+Variables X H : Type.
+Variable cell : X -> H -> H.
+Fixpoint rscan (h : H) (xs : list X) : list H := match xs with [] => [] | x :: xs' => let h' := cell x h in h' :: rscan h' xs' end.
+Definition rmap2 (x : list X) (h : list H) : list H := map (fun ab => cell (fst ab) (snd ab)) (combine x h).
+(* the code's reversed time loop: previous outputs, completed with the rows of h_0 that enter now, cut to the current batch
+   (first step: h = [] gives h_0[:batch]; later: torch.cat((h, h_0[prev:batch])) ) *)
+Fixpoint rloop (h0 : list H) (xs : list (list X)) (h : list H) : list (list H) :=
+  match xs with
+  | [] => []
+  | x :: xs' => let h' := rmap2 x (firstn (length x) (h ++ skipn (length h) h0)) in h' :: rloop h0 xs' h'
+  end.
+(* row i of a time-major list of columns: the entries of the columns that are long enough *)
+Definition rowseq (A : Type) (i : nat) (cs : list (list A)) : list A :=
+  flat_map (fun c => match nth_error c i with Some v => [v] | None => [] end) cs.
+Fixpoint nondecreasing (n : nat) (cs : list (list X)) : Prop :=
+  match cs with [] => True | c :: r => n <= length c /\ nondecreasing (length c) r end.
+
+Lemma nth_error_fill (h h0 : list H) i : length h <= i -> nth_error (h ++ skipn (length h) h0) i = nth_error h0 i.
+Proof.
+  intros Hi. rewrite nth_error_app2 by exact Hi. revert i Hi. generalize (length h) as n. revert h0.
+  induction h0 as [|a h0 IH]; intros n i Hi.
+  - rewrite skipn_nil. destruct (i - n), i; reflexivity.
+  - destruct n as [|n]; [now rewrite Nat.sub_0_r|]. destruct i as [|i]; [lia|]. cbn [skipn nth_error Nat.sub]. apply IH. lia.
+Qed.
+Lemma rmap2_length x h : length x <= length h -> length (rmap2 x h) = length x.
+Proof. intros Hl. unfold rmap2. rewrite map_length, combine_length. lia. Qed.
+Lemma rmap2_nth x h i xi hi : nth_error x i = Some xi -> nth_error h i = Some hi -> nth_error (rmap2 x h) i = Some (cell xi hi).
+Proof.
+  revert h i. induction x as [|a x IH]; intros h i Hx Hh; [destruct i; discriminate|].
+  destruct h as [|b h]; [destruct i; discriminate|]. destruct i as [|i]; cbn in *.
+  - inversion Hx; inversion Hh; subst. reflexivity.
+  - apply IH; assumption.
+Qed.
+Lemma nth_error_firstn (A : Type) (l : list A) n i : i < n -> nth_error (firstn n l) i = nth_error l i.
+Proof.
+  revert n i. induction l as [|a l IH]; intros n i Hi; [now rewrite firstn_nil|].
+  destruct n as [|n]; [lia|]. destruct i as [|i]; [reflexivity|]. cbn. apply IH. lia.
+Qed.
+Lemma fill_length (h h0 : list H) : length h <= length h0 -> length (h ++ skipn (length h) h0) = length h0.
+Proof. intros Hl. rewrite app_length, skipn_length. lia. Qed.
+
+(* row i of the loop's output columns is the recurrence over row i of the input columns, started from the state that row holds on entry *)
+Theorem rloop_rows (h0 : list H) (cs : list (list X)) : forall (h : list H) (i : nat) (hi : H),
+  nondecreasing (length h) cs -> Forall (fun c => length c <= length h0) cs -> length h <= length h0 ->
+  nth_error (h ++ skipn (length h) h0) i = Some hi ->
+  rowseq H i (rloop h0 cs h) = rscan hi (rowseq X i cs).
+Proof.
+  induction cs as [|c cs IH]; intros h i hi Hnd Hle Hh Hi; [reflexivity|].
+  destruct Hnd as [Hhc Hnd]. inversion Hle as [|? ? Hc Hle']; subst.
+  cbn [rloop]. set (hh := h ++ skipn (length h) h0) in *.
+  set (h' := rmap2 c (firstn (length c) hh)).
+  assert (Lhh : length hh = length h0) by (apply fill_length; exact Hh).
+  assert (Lh' : length h' = length c) by (apply rmap2_length; rewrite firstn_length; lia).
+  unfold rowseq at 1 2. cbn [flat_map]. fold (rowseq H i (rloop h0 cs h')). fold (rowseq X i cs).
+  destruct (nth_error c i) as [xi|] eqn:Ec.
+  - assert (Hic : i < length c) by (apply nth_error_Some; congruence).
+    assert (Eh' : nth_error h' i = Some (cell xi hi)).
+    { apply rmap2_nth; [exact Ec|]. rewrite nth_error_firstn by exact Hic. exact Hi. }
+    rewrite Eh'. cbn [app rscan]. f_equal.
+    apply IH; [rewrite Lh'; exact Hnd|exact Hle'|lia|].
+    rewrite nth_error_app1 by lia. exact Eh'.
+  - assert (Hic : length c <= i) by (apply nth_error_None; exact Ec).
+    assert (Eh' : nth_error h' i = None) by (apply nth_error_None; lia).
+    rewrite Eh'. cbn [app].
+    apply IH; [rewrite Lh'; exact Hnd|exact Hle'|lia|].
+    rewrite nth_error_fill by lia. rewrite <- Hi. unfold hh. symmetry. apply nth_error_fill. lia.
+Qed.
+Lemma rowseq_rev (A : Type) i (cs : list (list A)) : rowseq A i (rev cs) = rev (rowseq A i cs).
+Proof.
+  unfold rowseq. induction cs as [|c cs IH]; [reflexivity|]. cbn [rev flat_map]. rewrite flat_map_app, IH, rev_app_distr. cbn [flat_map].
+  rewrite app_nil_r. destruct (nth_error c i); reflexivity.
+Qed.
+(* the whole reversed layer, row by row: the time-ordered outputs of row i are the reversed recurrence over the reversed row *)
+Theorem reverse_layer_rows (h0 : list H) (cols_fwd : list (list X)) (i : nat) (hi : H) :
+  nondecreasing 0 (rev cols_fwd) -> Forall (fun c => length c <= length h0) cols_fwd -> nth_error h0 i = Some hi ->
+  rowseq H i (rev (rloop h0 (rev cols_fwd) [])) = rev (rscan hi (rev (rowseq X i cols_fwd))).
+Proof.
+  intros Hnd Hle Hi. rewrite rowseq_rev. f_equal. rewrite <- rowseq_rev.
+  apply rloop_rows; [exact Hnd| |cbn; lia|cbn; exact Hi].
+  apply Forall_rev. exact Hle.
+Qed.
+End Reverse.
